@@ -375,6 +375,62 @@ fn producer_drops_handle(e: &'static Engine, prods: &'static [usize], pops: usiz
     e.note(&format!("{:?}", got));
 }
 
+/// a producer is held (breakpoint) between the two steps of its push - head swapped, predecessor not yet linked - while a
+/// second producer completes a push behind it; the consumer then looks at the list. peek / pop wait for the link however
+/// long it takes (a helper makes `spins` unrelated steps before it lets the first producer go on), they never report an
+/// empty list: is_empty() is false and a push has completed.
+fn half_linked_push(e: &'static Engine, spins: usize, op: char) {
+    let q: Arc<Queue<Tracked>> = Arc::new(Queue::new());
+    static SECOND_DONE: AtomicBool = AtomicBool::new(false);
+    e.begin();
+    let bp = e.break_at("list.push.swapped");
+    let q1 = q.clone();
+    let p1 = e.spawn("producer", move || {
+        std::mem::forget(q1.push(Tracked::new(1)).0);
+    });
+    e.wait_hit(bp);
+    let q2 = q.clone();
+    let p2 = e.spawn("producer", move || {
+        std::mem::forget(q2.push(Tracked::new(2)).0);
+        SECOND_DONE.store(true, Ordering::SeqCst);
+    });
+    e.wait_flag(&SECOND_DONE);
+    let helper = e.spawn("helper", move || {
+        // unrelated steps: every one of them lets the spinning consumer look again
+        let dummy: Queue<u32> = Queue::new();
+        for i in 0..spins {
+            std::mem::forget(dummy.push(i as u32).0);
+            let _ = dummy.pop();
+            // give way like a busy-waiter: the consumer looks again before the next step
+            may::verif::spin_hint();
+        }
+        e.release(bp);
+    });
+    if q.is_empty() {
+        e.fail("visibility", "is_empty() is true although a push has completed");
+    }
+    let got = match op {
+        'K' => unsafe { q.peek() }.map(|t| t.id()),
+        'P' => q.pop().map(|t| t.id()),
+        _ => q.pop_if(&|_t: &Tracked| true).map(|t| t.id()),
+    };
+    if got != Some(1) {
+        e.fail("visibility", &format!("the list holds a completed push behind a half-linked one, {} reported {:?} instead of waiting for the oldest entry", match op { 'K' => "peek", 'P' => "pop", _ => "pop_if" }, got));
+    }
+    e.join(p1);
+    e.join(p2);
+    e.join(helper);
+    let mut rest = vec![];
+    while let Some(t) = q.pop() {
+        rest.push(t.id());
+    }
+    let want: Vec<u32> = if op == 'K' { vec![1, 2] } else { vec![2] };
+    if rest != want {
+        e.fail("exactly_once_in_order", &format!("after the {} the list held {:?}", op, rest));
+    }
+    e.note(&format!("{:?}", got));
+}
+
 fn mk(prefill: usize, prods: &'static [usize], cons: &'static str, drop_left: bool) -> Scenario {
     let name = format!(
         "list.pre{}.prod{}.cons{}{}",
@@ -420,6 +476,10 @@ pub fn build(quick: bool) -> Vec<Scenario> {
             r.name = format!("{}.desc", r.name);
             v.push(r);
         }
+    }
+    // a half-linked push in front of a completed one
+    for op in ['K', 'P', 'A'] {
+        v.push(Scenario::new("C19", "list_v1_half_linked", format!("list.half_linked_push.{}.spins24", op), Arc::new(move |e| half_linked_push(e, 24, op))).fine().bound(1));
     }
     // handles dropped on the producer's thread
     v.push(Scenario::new("C19", "list_v1_handle_drop", "list.handle_dropped_by_producer.prod2.pop2", Arc::new(|e| producer_drops_handle(e, &[2], 2))).fine().bound(d + 1));
